@@ -342,12 +342,12 @@ class Extractor:
         if self._steps % 256 == 0:
             import time as _t
             if getattr(self, "_deadline", None) is None:
-                self._deadline = _t.time() + self.time_budget
-            elif _t.time() > self._deadline:
+                self._deadline = _t.process_time() + self.time_budget
+            elif _t.process_time() > self._deadline:
                 self.truncated = True
         if self.truncated and getattr(self, "_deadline", None) is not None and self._steps > 256:
             import time as _t
-            if _t.time() > self._deadline:
+            if _t.process_time() > self._deadline:
                 return
         self.body, self.it = fr.body, fr.it
         body, it = fr.body, fr.it
